@@ -83,11 +83,18 @@ pub fn check(v: &View, vd: &mut Verdict) {
         // (b) last strong drop: accepted messages are handled first, then a graceful end
         let last_zero = zero_since[a];
         if let Some(z) = last_zero {
-            if !stop_requested && !hidden_holder && !v.rt[a].stream {
+            // a stream-attached actor also ends with its stream (without draining its mailbox): only the
+            // "it does end" rules apply to it, and only if its stream did not end
+            let stream = v.rt[a].stream;
+            let stream_over = stream && v.hist.iter().any(|e| matches!(e.kind, EvKind::StreamEnded { .. }));
+            if !stop_requested && !hidden_holder && !stream_over {
                 if z < teardown {
                     vd.class("last_drop_before_teardown");
                 }
-                for o in v.client_ops().filter(|o| o.actor == Some(a) && matches!(o.what, OpWhat::Send | OpWhat::Call) && o.ok()) {
+                if stream {
+                    vd.class("stream_actor_last_drop");
+                }
+                for o in v.client_ops().filter(|o| !stream && o.actor == Some(a) && matches!(o.what, OpWhat::Send | OpWhat::Call) && o.ok()) {
                     if o.end.is_some_and(|e| e < z) {
                         let invs = v.inv_of_msg(o.msg.unwrap());
                         if z < teardown && invs.first().is_some_and(|i| i.enter > z) {
@@ -103,7 +110,7 @@ pub fn check(v: &View, vd: &mut Verdict) {
                     }
                 }
                 let settle = v.phase(Phase::Settle);
-                if av.task_end.is_some_and(|(s, _)| s > teardown) && z < settle {
+                if av.task_end.is_some_and(|(s, _)| s > teardown) && z < settle && (!stream || super::c04::stop_overdue(v, a, teardown)) {
                     // everything it had accepted fits into the settle window: something kept it alive until the world was torn down
                     vd.fail("C05/kept_alive_until_teardown", format!("actor {a}: the last strong handle was dropped at {z} (run phase), but the actor only terminated at {:?}, after the harness had unregistered services and brokers at {teardown}", av.task_end));
                 }
@@ -111,6 +118,43 @@ pub fn check(v: &View, vd: &mut Verdict) {
                     vd.fail("C05/kept_alive", format!("actor {a}: the last strong handle was dropped at {z} but the actor never terminated (only weak handles, timers, subscriptions were left)"));
                 } else if !av.graceful {
                     vd.fail("C05/not_graceful_after_last_drop", format!("actor {a}: last strong handle dropped at {z}; termination was not graceful: {:?}", av.task_end));
+                }
+                // nothing time-driven delays the end: the wind-down begins as soon as the last handle is gone,
+                // the handlers and callbacks that were running or queued have finished and no in-flight
+                // operation holds a temporary handle
+                let wind = v.cbs.iter().filter(|c| c.actor == a && c.enter > z && matches!(c.cb, Cb::Stopped | Cb::Finished)).map(|c| (c.enter, c.enter_time)).min();
+                if let (Some((wind, wind_time)), false, true) = (wind, stream, z < teardown) {
+                    let time_of = |s: u64| v.hist.iter().find(|e| e.stamp >= s).map(|e| e.time).unwrap_or(u64::MAX);
+                    let timeout = v.rt[a].timeout.map(|(x, _)| x as u64);
+                    let mut latest = time_of(z);
+                    let mut unknown = false;
+                    for i in v.invs.iter().filter(|i| i.actor == a && i.enter < wind) {
+                        latest = latest.max(match (i.exit, timeout) {
+                            (Some(_), _) => i.exit_time,
+                            (None, Some(x)) => i.enter_time + x,
+                            (None, None) => u64::MAX,
+                        });
+                    }
+                    for c in v.cbs.iter().filter(|c| c.actor == a && c.enter < wind) {
+                        latest = latest.max(c.exit.map(time_of).unwrap_or(u64::MAX));
+                    }
+                    for p in v.ops.iter().filter(|p| (p.actor == Some(a) || matches!(p.what, OpWhat::Publish(_))) && p.begin < wind && p.end_or_max() > z) {
+                        match p.end {
+                            Some(_) => latest = latest.max(p.end_time),
+                            None => unknown = true,
+                        }
+                    }
+                    // a timer whose waiting send is blocked holds an upgraded sender meanwhile; so does the
+                    // broker while it fans a publication out
+                    let waiting_timer = matches!(v.rt[a].mailbox, Mailbox::Bounded(_))
+                        && v.hist.iter().any(|e| matches!(&e.kind, EvKind::TimerReg { actor, kind: TimerKind::IntervalWith | TimerKind::DelayedSend, .. } if *actor == a));
+                    let subscribed = v.ops.iter().any(|p| matches!(p.what, OpWhat::Subscribe(_)) && p.actor == Some(a));
+                    if !unknown && !waiting_timer && !subscribed && latest != u64::MAX && wind_time > latest {
+                        vd.fail(
+                            "C05/lingered_after_last_drop",
+                            format!("actor {a}: the last strong handle was dropped at {z}; everything it was doing or could still receive was over by t={latest}, yet it only began to wind down at t={wind_time} (stamp {wind}): something time-driven kept it alive"),
+                        );
+                    }
                 }
                 // timers/subscriptions active at that moment?
                 let timer_active = v.hist.iter().any(|e| matches!(&e.kind, EvKind::TimerReg { actor, .. } if *actor == a && e.stamp < z));
